@@ -345,7 +345,155 @@ func ownershipViolations(fields []ownField, accs []ownAccess) (out []string) {
 	return
 }
 
+// globalMapCensus: package-level variables of map type in the engine's packages and the functions that touch
+// them: a function writing one (index assignment, delete) must take a write lock (a call of Lock()), a function
+// reading one a lock of either kind; init functions run before any goroutine exists and are exempt.
+type globalMapAccess struct {
+	Var, Func string
+	Write, OK bool
+}
+
+func globalMapCensus(c *factsCtx) (out []globalMapAccess) {
+	var dirs []string
+	filepath.Walk(c.repo, func(p string, info os.FileInfo, err error) error {
+		if err == nil && info.IsDir() {
+			rel, _ := filepath.Rel(c.repo, p)
+			if rel == "." || strings.HasPrefix(rel, "pkg") {
+				dirs = append(dirs, rel)
+			}
+			if strings.HasPrefix(rel, ".git") || rel == "schema" || rel == "examples" || rel == "testdata" || rel == "model" {
+				return filepath.SkipDir
+			}
+		}
+		return nil
+	})
+	sort.Strings(dirs)
+	for _, d := range dirs {
+		files, _ := filepath.Glob(filepath.Join(c.repo, d, "*.go"))
+		sort.Strings(files)
+		var parsed []*ast.File
+		for _, p := range files {
+			if strings.HasSuffix(p, "_test.go") || verifOnly(p) {
+				continue
+			}
+			rel, _ := filepath.Rel(c.repo, p)
+			if f := c.parse(rel); f != nil {
+				parsed = append(parsed, f)
+			}
+		}
+		maps := map[string]bool{}
+		for _, f := range parsed {
+			for _, dcl := range f.Decls {
+				gd, ok := dcl.(*ast.GenDecl)
+				if !ok || gd.Tok != token.VAR {
+					continue
+				}
+				for _, sp := range gd.Specs {
+					vs := sp.(*ast.ValueSpec)
+					isMap := false
+					if _, ok := vs.Type.(*ast.MapType); ok {
+						isMap = true
+					}
+					for _, v := range vs.Values {
+						switch x := v.(type) {
+						case *ast.CompositeLit:
+							if _, ok := x.Type.(*ast.MapType); ok {
+								isMap = true
+							}
+						case *ast.CallExpr:
+							if id, ok := x.Fun.(*ast.Ident); ok && id.Name == "make" && len(x.Args) > 0 {
+								if _, ok := x.Args[0].(*ast.MapType); ok {
+									isMap = true
+								}
+							}
+						}
+					}
+					if isMap {
+						for _, n := range vs.Names {
+							maps[n.Name] = true
+						}
+					}
+				}
+			}
+		}
+		if len(maps) == 0 {
+			continue
+		}
+		for _, f := range parsed {
+			for _, dcl := range f.Decls {
+				fd, ok := dcl.(*ast.FuncDecl)
+				if !ok || fd.Body == nil {
+					continue
+				}
+				fn := fd.Name.Name
+				if fd.Recv != nil && len(fd.Recv.List) > 0 {
+					fn = nodeText(c.fset, fd.Recv.List[0].Type) + "." + fn
+				}
+				hasLock, hasRLock := false, false
+				writes, reads := map[string]bool{}, map[string]bool{}
+				shadow := map[string]bool{}
+				ast.Inspect(fd.Body, func(x ast.Node) bool {
+					switch y := x.(type) {
+					case *ast.CallExpr:
+						if se, ok := y.Fun.(*ast.SelectorExpr); ok {
+							if se.Sel.Name == "Lock" {
+								hasLock = true
+							}
+							if se.Sel.Name == "RLock" {
+								hasRLock = true
+							}
+						}
+						if id, ok := y.Fun.(*ast.Ident); ok && id.Name == "delete" && len(y.Args) > 0 {
+							if m, ok := y.Args[0].(*ast.Ident); ok && maps[m.Name] {
+								writes[m.Name] = true
+							}
+						}
+					case *ast.AssignStmt:
+						for _, l := range y.Lhs {
+							if ix, ok := l.(*ast.IndexExpr); ok {
+								if m, ok := ix.X.(*ast.Ident); ok && maps[m.Name] {
+									writes[m.Name] = true
+								}
+							}
+							if id, ok := l.(*ast.Ident); ok && y.Tok == token.DEFINE && maps[id.Name] {
+								shadow[id.Name] = true
+							}
+						}
+					case *ast.Ident:
+						if maps[y.Name] {
+							reads[y.Name] = true
+						}
+					}
+					return true
+				})
+				for v := range reads {
+					if shadow[v] {
+						continue
+					}
+					w := writes[v]
+					ok := fd.Name.Name == "init" || (w && hasLock) || (!w && (hasLock || hasRLock))
+					out = append(out, globalMapAccess{d + "." + v, fn, w, ok})
+				}
+			}
+		}
+	}
+	sort.Slice(out, func(i, j int) bool { return out[i].Var+out[i].Func < out[j].Var+out[j].Func })
+	return
+}
+
 func init() {
+	factGens = append(factGens, func(c *factsCtx) {
+		gm := globalMapCensus(c)
+		c.out.WriteString("(* package-level maps of the engine's packages and the functions touching them: (variable, function, writes, takes the lock it needs) *)\nDefinition global_map_accesses : list (string * string * bool * bool) := [\n")
+		for i, a := range gm {
+			sep := ";"
+			if i+1 == len(gm) {
+				sep = ""
+			}
+			fmt.Fprintf(&c.out, "  (%s, %s, %v, %v)%s\n", coqStr(a.Var), coqStr(a.Func), a.Write, a.OK, sep)
+		}
+		c.out.WriteString("].\n\n")
+	})
 	// facts for C17
 	factGens = append(factGens, func(c *factsCtx) {
 		fields, accs := ownershipCensus(c)
@@ -382,6 +530,12 @@ func init() {
 		for _, v := range ownershipViolations(fields, accs) {
 			fmt.Println("NOT OWNED, NOT LOCKED:", v)
 			bad++
+		}
+		for _, a := range globalMapCensus(c) {
+			fmt.Printf("global map %s in %s write=%v ok=%v\n", a.Var, a.Func, a.Write, a.OK)
+			if !a.OK {
+				bad++
+			}
 		}
 		fmt.Fprintln(os.Stderr, len(fields), "fields,", len(accs), "accesses,", bad, "foreign accesses to plain fields")
 	}
